@@ -2,7 +2,7 @@ import BqVerif.Proofs.Rules
 import BqVerif.Proofs.RulesParam
 import BqVerif.Proofs.RulesComplex
 import BqVerif.Proofs.Accept
-import BqVerif.Model.AcceptGrid
+import BqVerif.Proofs.AcceptGrid
 import BqVerif.Proofs.Structural
 import BqVerif.Proofs.Walsh
 import BqVerif.Proofs.Demultiplex
@@ -189,21 +189,75 @@ example : (scan (fun _ => ()) (fun _ _ => true) (fun _ => true) [0, 1, 2]
 example : (scan (fun _ => ()) (fun _ _ => false) (fun _ => true) [0, 1, 2]
     ([(0, 'a'), (1, 'b'), (2, 'c')], ())).1 = [(0, 'a'), (1, 'b'), (2, 'c')] := by decide
 
-/-! ### known finding: the tree scan's cycle shift when scanning right to left
+/-! ### the tree scan's cycle arithmetic (code after fix 513afaa)
 
-`Model/AcceptGrid.lean` transcribes `get_tree_circs` with the code's cycle arithmetic (the harness
-compares it with the real function call by call, IndexErrors included). On the circuit
-`[U@0 | V@(1,0) | W@1 | X@1]` (tags 0–3, one operation per cycle) and the right-to-left chunk
-X, W the candidate meant to drop X and W drops X and V instead, and with the chunk X, W, V the
-function raises. Scanning left to right the same function returns exactly the subsets. -/
+`Model/AcceptGrid.lean` transcribes `get_tree_circs` on the cycle grid with the code's index
+arithmetic and `Circuit.pop`'s IndexErrors (`none`); the harness compares it with the real function
+call by call. In a well-formed circuit, for BOTH scan directions, every pop addresses the operation
+the iteration is looking at: the function never raises and returns exactly the circuits with each
+subset of the chunk deleted (in the code's order, before the stable sort). Before the fix the
+right-to-left scan used the left-to-right shift and popped a wrong operation or raised. -/
 
 open BqVerif.AcceptGrid in
-theorem C10_treescan_right_shift_witness :
-    let g : Grid := [[⟨0, [0]⟩], [⟨1, [1, 0]⟩], [⟨2, [1]⟩], [⟨3, [1]⟩]]
-    (getTreeCircs 4 g [⟨3, 1⟩, ⟨2, 1⟩]).map (·.map tags) = some [[0, 2], [0, 1, 2], [0, 1, 3]] ∧
-    getTreeCircs 4 g [⟨3, 1⟩, ⟨2, 1⟩, ⟨1, 1⟩] = none ∧
-    (getTreeCircs 4 g [⟨0, 0⟩, ⟨1, 1⟩]).map (·.map tags) = some [[2, 3], [1, 2, 3], [0, 2, 3]] := by
-  decide
+/-- One pop: `g` well formed, operation `o` (tag not yet deleted) in cycle `c`, `q` one of its qudits,
+the tags `D` deleted so far all in cycles the scan has passed or is in (`region` = the cycles not yet
+reached: after `c` scanning left to right, before `c` scanning right to left). -/
+theorem C10_treescan_pop_intended (left : Bool) (g : Grid) (wf : WF g) (c : Nat) (cy : List GOp)
+    (o : GOp) (q : Nat) (D : List Nat) (hc : g[c]? = some cy) (ho : o ∈ cy) (hq : q ∈ o.loc)
+    (hoD : o.tag ∉ D) (hD : ∀ t ∈ D, t ∉ tags (region left g c)) :
+    popShift left g.length (del D g) ⟨c, q⟩ = some (del (o.tag :: D) g) :=
+  popShift_wf left g wf c cy o q D hc ho hq hoD hD
+
+open BqVerif.AcceptGrid in
+/-- The whole loop of `get_tree_circs` for a chunk in scan order. -/
+theorem C10_treescan_tree_circs (left : Bool) (g : Grid) (wf : WF g) (ch : List Elem)
+    (D0 : List Nat) (hch : ChunkOk left g ch) (hds : DsOk left g ch [D0]) :
+    treeCircs left g.length (del D0 g) (ch.map fun x => ⟨x.1, x.2.2⟩) =
+      some ((subsetsCode D0 (ch.map fun x => x.2.1.tag)).map fun D => del D g) :=
+  treeCircs_spec left g wf ch D0 hch hds
+
+namespace TreeScanExample
+open BqVerif.AcceptGrid
+/-- The reproducer of the former finding: `[U@0 | V@(1,0) | W@1 | X@1]`, chunk X, W, V from the right. -/
+def g : Grid := [[⟨0, [0]⟩], [⟨1, [1, 0]⟩], [⟨2, [1]⟩], [⟨3, [1]⟩]]
+def ch : List Elem := [(3, ⟨3, [1]⟩, 1), (2, ⟨2, [1]⟩, 1), (1, ⟨1, [1, 0]⟩, 1)]
+
+theorem wf : WF g := by
+  refine ⟨by decide, by decide, ?_⟩
+  intro cy hcy x hx x' hx' q _ _
+  simp only [g, List.mem_cons, List.not_mem_nil, or_false] at hcy
+  rcases hcy with rfl | rfl | rfl | rfl <;> simp_all
+
+theorem chOk : ChunkOk false g ch := by
+  refine ⟨?_, by decide, by decide⟩
+  intro x hx
+  simp only [ch, List.mem_cons, List.not_mem_nil, or_false] at hx
+  rcases hx with rfl | rfl | rfl
+  · exact ⟨[⟨3, [1]⟩], rfl, by simp, by simp⟩
+  · exact ⟨[⟨2, [1]⟩], rfl, by simp, by simp⟩
+  · exact ⟨[⟨1, [1, 0]⟩], rfl, by simp, by simp⟩
+
+theorem dsOk : DsOk false g ch [[]] := by
+  intro D hD
+  rw [List.mem_singleton.mp hD]
+  constructor
+  · intro y _ h
+    exact absurd h List.not_mem_nil
+  · intro y _ t h
+    exact absurd h List.not_mem_nil
+
+/-- Non-vacuity of both theorems, on the input that used to raise IndexError. -/
+example : treeCircs false 4 g [⟨3, 1⟩, ⟨2, 1⟩, ⟨1, 1⟩] =
+    some ((subsetsCode [] [3, 2, 1]).map fun D => del D g) :=
+  C10_treescan_tree_circs false g wf ch [] chOk dsOk
+
+example : (getTreeCircs false 4 g [⟨3, 1⟩, ⟨2, 1⟩, ⟨1, 1⟩]).map (·.map tags) =
+    some [[0], [0, 1], [0, 2], [0, 3], [0, 1, 2], [0, 1, 3], [0, 2, 3]] := by decide
+
+example : popShift false 4 (del [3] g) ⟨2, 1⟩ = some (del [2, 3] g) :=
+  C10_treescan_pop_intended false g wf 2 [⟨2, [1]⟩] ⟨2, [1]⟩ 1 [3] rfl (by simp) (by simp)
+    (by decide) (by decide)
+end TreeScanExample
 
 /-! ### structural passes -/
 
